@@ -141,6 +141,18 @@ NiShape* buildShape(NifFile& nif, const json& s, Ctx& ctx) {
 	if (!shape) return nullptr;
 
 	if (jbool(s, "colors", false)) {
+		std::string cm = jstr(s, "color_mode", "random");
+		if (cm != "random") {
+			for (size_t i = 0; i < m.c.size(); i++) {
+				float a = cm == "white_alpha" ? float(r.below(256)) / 255.0f : 1.0f;
+				m.c[i] = Color4(1.0f, 1.0f, 1.0f, a);
+			}
+			if (cm == "white_but_one" && !m.c.empty()) {
+				Color4& c = m.c[r.below(uint32_t(m.c.size()))];
+				switch (r.below(4)) { case 0: c.r = 254 / 255.0f; break; case 1: c.g = 0.5f; break; case 2: c.b = 0.0f; break; default: c.a = 254 / 255.0f; }
+			}
+			ctx.probe("built_colors_" + cm);
+		}
 		nif.SetColorsForShape(shape, m.c);
 		ctx.probe("built_colors");
 	}
